@@ -265,6 +265,11 @@ def install():
             ev["exc"] = type(exc).__name__
             w.event(ev, {"self": self, "other": other})
             raise
+        # the fragment that was attached is an object of its own: what it holds afterwards (ignoring the bookkeeping tags)
+        try:
+            ev["post_other"] = [desc_view(b) for b in other.bond_descriptors] if other is not res else None
+        except Exception:
+            ev["post_other"] = None
         res._gb_inst = inst_s + [(u, off + na_s, n) for (u, off, n) in inst_o]
         if not hasattr(res, "_gb_obj"):
             res._gb_obj = self._gb_obj
